@@ -10,10 +10,10 @@
    wrappers return before touching it.
    The run-length vector (Model/RL.v) is covered by [C09_rl_total] at the end of this file, over run lists
    (universes up to 2^64-1 cannot be written as bit lists).
-   PARTIAL: the models of SparseVector and WaveletMatrix/WMCore are written in other packages and are
-   not part of this one; for them the full statements are given as [C09_<type>_total_statement] against
-   abstract query functions (to be instantiated with those models), and the tie to the code is the
-   correspondence run of Check/C09.v, whose naive-spec side decides. *)
+   The sparse vector (Model/Sparse.v) is covered by Props/C09_sparse.v (C09_sparse_total, ..., C09_types_agree).
+   PARTIAL: the model of WaveletMatrix/WMCore is written in another package; for it the full statement is given
+   as [C09_wm_total_statement] against abstract query functions (to be instantiated with that model), and the
+   tie to the code is the correspondence run of Check/C09.v, whose naive-spec side decides. *)
 From Coq Require Import NArith List Bool.
 Require Import SDS.Model.Mach SDS.Model.Bits SDS.Model.Raw SDS.Model.IntVec SDS.Model.BitVec SDS.Model.Builders.
 Require Import SDS.Spec.BitSeq SDS.Spec.BuilderSpec SDS.Proofs.BitsProof SDS.Proofs.BVCommon SDS.Proofs.RankProof.
@@ -191,14 +191,9 @@ Definition C09_bitvector_type_total_statement
     (forall k n, n < 2 ^ 64 -> count B - k <= n -> q_one_nth m v k n = Ok (None, None, 0)) /\
     (forall k n, n < 2 ^ 64 -> lenB B - count B - k <= n -> q_zero_nth m v k n = Ok (None, None, 0)).
 
-Definition C09_sparse_total_statement := C09_bitvector_type_total_statement.
-(* the run-length vector's reading of this statement is proved: C09_rl_total below *)
-
-(* the three types agree: any two instances of the statement above give equal answers on the same sequence *)
-Definition C09_types_agree_statement
-  (T1 T2 : Type) (repr1 : T1 -> list bool -> Prop) (repr2 : T2 -> list bool -> Prop)
-  (q1 : mode -> T1 -> N -> res N) (q2 : mode -> T2 -> N -> res N) : Prop :=
-  forall m v1 v2 B, repr1 v1 B -> repr2 v2 B -> forall i, i < 2 ^ 64 -> q1 m v1 i = q2 m v2 i.
+(* the run-length vector's reading of this statement is proved: C09_rl_total below; the sparse vector's reading:
+   C09_sparse_total / C09_sparse_multiset_total / C09_sparse_nth_beyond in Props/C09_sparse.v; that the three types
+   agree (equal answers on the same sequence, all three instances at once): C09_types_agree in Props/C09_sparse.v *)
 
 (* occurrences of a value in a list: the naive reading of the wavelet-matrix queries *)
 Fixpoint occ_before (l : list N) (i v : N) : N :=
